@@ -26,6 +26,7 @@ _TYPES = {
     'wchar_t': (32, True), 'cffi_char16_t': (16, False), 'cffi_char32_t': (32, False),
     'Py_UCS4': (32, False), 'Py_UCS2': (16, False), 'Py_UCS1': (8, False),
     '__int128': (128, True), 'unsigned __int128': (128, False),
+    'ffi_arg': (64, False), 'ffi_sarg': (64, True),
 }
 
 
